@@ -864,6 +864,10 @@ def check(tier, seed, procs):
             for ci in range(nc):
                 items.append((tier, scn, var, ci, nc))
     items = par.rotate(items, seed)
+    import gc
+
+    gc.collect()
+    gc.freeze()      # the forked workers share the parent's heap: keep the collector from touching (copying) it
     rows = par.pmap(_work, items, procs, chunksize=1)
     fatal = [r['fatal'] for r in rows if r['fatal']]
     if fatal:
